@@ -455,6 +455,9 @@ fn client_main(idx: usize, scn: Arc<Scn>, col: Arc<Mutex<Collected>>) {
                 log.push(Ev::At { ns: engine::now() });
                 log.push(Ev::SentAnn { t: *t, stopped: evs == Some("stopped"), seeder: false, offers: vec![], seq: engine::seq(), pidc: v, refused, nowait: false });
                 if ws.send(Message::text(m.to_string())).is_err() {
+                    // the tracker had closed the connection (a write on it fails): that is a close the client has seen
+                    log.push(Ev::At { ns: engine::now() });
+                    log.push(Ev::Closed { by_client: false, seq: engine::seq() });
                     alive = false;
                 } else {
                     alive = pump2(&mut ws, &mut log, engine::now() + 400_000_000, 2);
@@ -466,6 +469,9 @@ fn client_main(idx: usize, scn: Arc<Scn>, col: Arc<Mutex<Collected>>) {
                 log.push(Ev::At { ns: engine::now() });
                 log.push(Ev::SentAnn { t: *t, stopped: false, seeder: false, offers: vec![], seq: engine::seq(), pidc: 100 + idx, refused, nowait: false });
                 if ws.send(Message::text(m.to_string())).is_err() {
+                    // the tracker had closed the connection (a write on it fails): that is a close the client has seen
+                    log.push(Ev::At { ns: engine::now() });
+                    log.push(Ev::Closed { by_client: false, seq: engine::seq() });
                     alive = false;
                 } else {
                     alive = pump2(&mut ws, &mut log, engine::now() + reply_wait, 2);
@@ -481,6 +487,9 @@ fn client_main(idx: usize, scn: Arc<Scn>, col: Arc<Mutex<Collected>>) {
                 log.push(Ev::SentAnn { t: *t, stopped: false, seeder: false, offers: vec![], seq: engine::seq(), pidc: idx, refused, nowait: false });
                 log.push(Ev::SentAnswer { t: *t, to_pid: id_string(&conn_peer_id(to_c, false)), oid: id_string(&offer_id(to_c, 600 + *oid as u32)), sdp, seq: engine::seq(), genuine: false });
                 if ws.send(Message::text(m.to_string())).is_err() {
+                    // the tracker had closed the connection (a write on it fails): that is a close the client has seen
+                    log.push(Ev::At { ns: engine::now() });
+                    log.push(Ev::Closed { by_client: false, seq: engine::seq() });
                     alive = false;
                 } else {
                     // an error reply for the answer may precede the announce reply: read both
@@ -498,6 +507,9 @@ fn client_main(idx: usize, scn: Arc<Scn>, col: Arc<Mutex<Collected>>) {
                 // scrapes may travel as binary messages too
                 let msg = if idx % 2 == 0 { Message::text(m.to_string()) } else { Message::binary(m.to_string().into_bytes()) };
                 if ws.send(msg).is_err() {
+                    // the tracker had closed the connection (a write on it fails): that is a close the client has seen
+                    log.push(Ev::At { ns: engine::now() });
+                    log.push(Ev::Closed { by_client: false, seq: engine::seq() });
                     alive = false;
                 } else {
                     alive = pump(&mut ws, &mut log, engine::now() + reply_wait, true);
@@ -514,6 +526,9 @@ fn client_main(idx: usize, scn: Arc<Scn>, col: Arc<Mutex<Collected>>) {
                 };
                 log.push(Ev::SentBad { seq: engine::seq() });
                 if ws.send(msg).is_err() {
+                    // the tracker had closed the connection (a write on it fails): that is a close the client has seen
+                    log.push(Ev::At { ns: engine::now() });
+                    log.push(Ev::Closed { by_client: false, seq: engine::seq() });
                     alive = false;
                 } else {
                     alive = pump(&mut ws, &mut log, engine::now() + 300_000_000, true);
